@@ -71,6 +71,16 @@ pub fn run_decisions(h: &History) -> Result<DecStats, Fail> {
                 st.calls += 1;
                 ensure!(recs.len() == dets.len(), "decision-record-count", "op {}: {} records for {} detections", k, recs.len(), dets.len());
                 check_call(cfg, &sh, &recs, k, &mut st)?;
+                // "the track's last estimated box" the next gate is computed against is the box the
+                // record reports as estimated (the filter's posterior), not the raw detection: the
+                // box stored for matching and the reported one are the same box
+                for r in &recs {
+                    if let Some(v) = tr.view(r.id) {
+                        if let Some(stored) = v.gallery.first().and_then(|g| g.bbox) {
+                            ensure!(crate::props::trkmon::same_box(&stored, &r.predicted, 4.0), "decision-matching-box", "op {}: track {} keeps {:?} as the box later detections are matched against, but its record reports {:?} as the estimated box (observed: {:?})", k, r.id, stored, r.predicted, r.observed);
+                        }
+                    }
+                }
                 st.records.push((k, recs));
             }
             Op::Skip { scene, n } => {
